@@ -85,6 +85,18 @@ CHECKS = {
         '(stated in Dom.v, validated by correspondence).',
    tech='Coq invariant proof over a pointer-heap model, induction over operation lists + lock-step correspondence',
    ref='5/C08'),
+ 'C13': dict(
+   text='PARTIAL. Proved (Coq): every XML parser construction / parse-call site of the odf package is a defusedxml one (table '
+        'regenerated from the working tree by an ast walk with import resolution, obligation re-checked every run); every entry point has '
+        'such sites; load() parses the manifest and every listed part of the main document and of every embedded object folder (model of '
+        'the manifest dispatch, tied by correspondence); and, UNDER THE HYPOTHESIS that a guarded parser raises on a document declaring '
+        'entities, an entry point whose reads all go through guarded sites fails as soon as one member it reads is dangerous. The '
+        'hypothesis is run-time behaviour of defusedxml/expat which no Gallina model can exhibit: it is tested, exhaustively in both tiers, '
+        'by the injection matrix (9 members x 8 injection kinds x 5 entry points) with a canary file and open()/urlopen watchers.',
+   note='Axioms: none; one Section hypothesis (guarded_refuses) discharged into an explicit premise of C13_refuses. The ast walk does '
+        'not see parsers reached through getattr/eval or C extensions.',
+   tech='Coq proof over a regenerated call-site table + Section hypothesis about the parser + exhaustive injection matrix',
+   ref='5/C13'),
  'C14': dict(
    text='Proof (Coq): invariant by induction over every history of prefix requests (get_nsprefix for unknown namespaces, unqualified '
         'names, formula/namespaced-token prefixes via __save_prefix) starting from the regenerated nsdict: the table written on root '
